@@ -45,7 +45,7 @@ fn pin_ray(mb: &sym::Mailbox, k: u8, df: i8, dr: i8, player: Player, orth: bool)
     result
 }
 
-fn pins_case(orth: bool) {
+fn pins_case(orth: bool) -> u64 {
     let mb = sym::any_mailbox();
     let board = sym::board_of(&mb);
     let player = geo::any_player();
@@ -55,13 +55,13 @@ fn pins_case(orth: bool) {
     if orth {
         let want_o = pin_ray(&mb, ki, 0, 1, player, true) | pin_ray(&mb, ki, 1, 0, player, true)
             | pin_ray(&mb, ki, 0, -1, player, true) | pin_ray(&mb, ki, -1, 0, player, true);
-        kani::cover!(want_o.count_ones() > 5);
         assert!(o.as_u64() == want_o);
+        want_o
     } else {
         let want_d = pin_ray(&mb, ki, 1, 1, player, false) | pin_ray(&mb, ki, 1, -1, player, false)
             | pin_ray(&mb, ki, -1, -1, player, false) | pin_ray(&mb, ki, -1, 1, player, false);
-        kani::cover!(want_d.count_ones() > 5);
         assert!(d.as_u64() == want_d);
+        want_d
     }
 }
 
@@ -76,7 +76,8 @@ fn pins_case(orth: bool) {
 #[kani::unwind(10)]
 //@@stubs-tables
 fn vk_c01_pins_orthogonal() {
-    pins_case(true);
+    let w = pins_case(true);
+    kani::cover!(w.count_ones() > 5);
 }
 
 //@ obligation: C01.pins.diagonal
@@ -90,5 +91,6 @@ fn vk_c01_pins_orthogonal() {
 #[kani::unwind(10)]
 //@@stubs-tables
 fn vk_c01_pins_diagonal() {
-    pins_case(false);
+    let w = pins_case(false);
+    kani::cover!(w.count_ones() > 5);
 }
